@@ -2,6 +2,7 @@ package core
 
 import (
 	"fmt"
+	"os"
 	"go/token"
 	"go/types"
 
@@ -226,28 +227,81 @@ type SinkVerdict struct {
 }
 
 // Bounded decides whether every untrusted leaf of the sink operand is bounded above by a
-// dominating comparison, and — when the operand is a signed conversion of an unsigned
-// leaf that was only bounded after conversion — also bounded below by zero.
-func (t *TaintSpec) Bounded(fn *ssa.Function, s Sink) SinkVerdict {
+// comparison on every path from the leaf's definition to the sink (for a parameter: from
+// the function entry, or else at every call site), and — when the operand is a signed
+// conversion of a 64-bit unsigned leaf that was bounded only after conversion — also
+// bounded below by zero. Index sinks additionally need the strict form i < len(x).
+func (t *TaintSpec) Bounded(p *Prog, fn *ssa.Function, s Sink) SinkVerdict {
 	for _, leaf := range s.Leaves {
 		sawUnsigned := false
-		g := Gate(fn, []ssa.Instruction{s.Instr}, Lit{A: atomUpperBounded(leaf, &sawUnsigned), Want: true})
-		if !(g.OK && g.PassEdges > 0) {
-			return SinkVerdict{false, fmt.Sprintf("no dominating upper bound on the untrusted value reaching this %s", s.Kind)}
+		a := atomUpperBounded(leaf, &sawUnsigned)
+		cut, per := CutEdges(fn, Lit{A: a, Want: true})
+		start := Point{fn.Blocks[0], 0}
+		if in, ok := leaf.(ssa.Instruction); ok {
+			start = After(in)
 		}
-		// sign: the leaf is unsigned (TLNum/uint64) and is converted to int on the way
+		var bounded bool
+		if _, isInstr := leaf.(ssa.Instruction); isInstr {
+			// value-flow: does the leaf's value reach the operand along a path without a bound edge?
+			flows := FlowPath(s.Val, s.Instr, func(x ssa.Value) bool { return x == leaf }, cut, func(x ssa.Value) []ssa.Value {
+				switch y := x.(type) {
+				case *ssa.BinOp:
+					return []ssa.Value{y.X, y.Y}
+				case *ssa.Convert:
+					return []ssa.Value{y.X}
+				case *ssa.Call:
+					if b, ok := y.Call.Value.(*ssa.Builtin); ok && (b.Name() == "min" || b.Name() == "max") {
+						return y.Call.Args
+					}
+				}
+				return nil
+			})
+			bounded = !flows && per[0] > 0
+		} else {
+			reach := ReachInstrFrom(start, s.Instr, cut, nil)
+			bounded = reach == nil && per[0] > 0
+		}
+		if !bounded {
+			// parameter: the bound may be established by every caller
+			if par, isP := leaf.(*ssa.Parameter); isP && p != nil {
+				idx := -1
+				for i, q := range fn.Params {
+					if q == par {
+						idx = i
+					}
+				}
+				callers := p.Callers(fn)
+				all := len(callers) > 0 && idx >= 0
+				for _, ci := range callers {
+					cc := ci.Common()
+					if cc.IsInvoke() || idx >= len(cc.Args) {
+						all = false
+						continue
+					}
+					arg := StripConv(cc.Args[idx])
+					su := false
+					g := Gate(ci.Parent(), []ssa.Instruction{ci}, Lit{A: atomUpperBounded(arg, &su), Want: true})
+					if !(g.OK && g.PassEdges > 0) {
+						all = false
+					}
+					if su {
+						sawUnsigned = true
+					}
+				}
+				bounded = all
+			}
+		}
+		if !bounded {
+			if os.Getenv("NDNDCHECK_DEBUG") != "" {
+				fmt.Fprintf(os.Stderr, "DEBUG unbounded: fn=%s sink=%v leaf=%v (%T) per=%v cut=%d\n", fn.Name(), s.Instr, leaf, leaf, per, len(cut))
+			}
+			return SinkVerdict{false, fmt.Sprintf("no upper bound on the untrusted value on some path from where it is read to this %s", s.Kind)}
+		}
+		// sign
 		lb, isB := leaf.Type().Underlying().(*types.Basic)
 		vb, isVB := s.Val.Type().Underlying().(*types.Basic)
-		if isB && isVB && lb.Info()&types.IsUnsigned != 0 && vb.Info()&types.IsUnsigned == 0 && lb.Kind() != types.Uint8 && lb.Kind() != types.Uint16 && lb.Kind() != types.Uint32 {
-			// re-run requiring the bound to be on the unsigned value, or a >= 0 test on the signed one
-			sawU := false
-			atomUpperBounded(leaf, &sawU) // (probe below)
-			okSign := false
-			facts := EdgeFacts(fn, atomUpperBounded(leaf, &sawU))
-			_ = facts
-			if sawU {
-				okSign = true
-			}
+		if isB && isVB && lb.Info()&types.IsUnsigned != 0 && vb.Info()&types.IsUnsigned == 0 && (lb.Kind() == types.Uint64 || lb.Kind() == types.Uint || lb.Kind() == types.Uintptr) {
+			okSign := sawUnsigned
 			if !okSign {
 				g2 := Gate(fn, []ssa.Instruction{s.Instr}, Lit{A: atomNonNegative(s.Val), Want: true})
 				okSign = g2.OK && g2.PassEdges > 0
@@ -257,5 +311,23 @@ func (t *TaintSpec) Bounded(fn *ssa.Function, s Sink) SinkVerdict {
 			}
 		}
 	}
-	return SinkVerdict{OK: true, Reason: "bounded by dominating comparison(s)"}
+	if s.Kind == "index" {
+		var container ssa.Value
+		switch x := s.Instr.(type) {
+		case *ssa.IndexAddr:
+			container = x.X
+		case *ssa.Index:
+			container = x.X
+		case *ssa.Lookup:
+			container = x.X
+		}
+		if container != nil {
+			g := Gate(fn, []ssa.Instruction{s.Instr}, Lit{A: atomIndexLess(StripConv(s.Val), Strip(container)), Want: true})
+			if !(g.OK && g.PassEdges > 0) {
+				// i > len(x) → return proves only i <= len(x)
+				return SinkVerdict{false, "the untrusted index is not shown to be strictly below the length of the indexed slice (a test of the form i > len(x) still admits i == len(x))"}
+			}
+		}
+	}
+	return SinkVerdict{OK: true, Reason: "bounded by comparison(s) on every path from its source"}
 }
